@@ -48,6 +48,9 @@ def run(rep, ctx, tier):
             # the batch verifier pins the number of rounds of every proof, like the single check does (F8)
             R4.run_rounds(rep, ctx, a, "ipa_pc::data_structures::Proof", "l_vec", "::succinct_check", "R4r")
         R1D.run_last_value(rep, ctx, a, "R1L")
+        # a sub-verifier that rejects by answering None: the variant is looked at where it is called
+        from ..rules import verdict as R3
+        R3.run_option(rep, ctx, a, "R3")
         # every claim a batch loop extracts takes part in the combined equation on every path to the next claim
         R1D.run_values(rep, ctx, a, "R1d")
         if n < 1:
@@ -84,7 +87,10 @@ def run(rep, ctx, tier):
             if not okd:
                 continue
             live.append((bid, i, t))
-            if i in RNG.cyclic_blocks(f.bodies[bid]):
+            # in a loop of its own body, or in a helper every invocation of which happens inside a loop of a caller
+            from ..rules import refusal as R5
+            lead = R5.leads_to(g, (bid, i))
+            if i in RNG.cyclic_blocks(f.bodies[bid]) or any(x in RNG.cyclic_blocks(f.bodies[cb]) for cb, at in lead.items() for x in at):
                 live_in_loop.append((bid, i, t))
         rep.count("rng_draw_sites", len(draws))
         if live_in_loop:
